@@ -170,7 +170,12 @@ func (app *App) blockBeginner() blockBeginner {
 		defer app.handlePanic()
 
 		gc := app.getGasCalculator()
-		app.Context.deliver = storage.NewState(app.Context.chainstate).WithGas(gc)
+		metered := storage.NewState(app.Context.chainstate).WithGas(gc)
+		// the hooks of the block start are not transactions: they run whatever the block gas limit
+		// is and use none of it (a limit they used up themselves left the fee options unread and
+		// ended in logger.Fatal); the transactions get the metered state, over the same block cache
+		app.Context.deliver = metered.Unmetered()
+		defer func() { app.Context.deliver = metered }()
 
 		// Apply update at specific height
 		if err := app.applyUpdate(req); err != nil {
